@@ -183,7 +183,50 @@ def run(run: common.Run):
                          signature=dict(kind='encoding-dependence', what=bad[0]))
     rewrite_leg(run, tmp)
     orientation_leg(run, tmp)
+    partial_mask_leg(run, tmp)
     read_logic(run, tmp)
+
+
+def partial_mask_leg(run, tmp):
+    """
+    Partial masking on a much coarser reference (one reference pixel covers 40 x 40 source pixels), isolated invalid source
+    pixels: the same logical source encoded with NaN nodata, a numeric nodata value, an internal mask and a side-car mask gives
+    identical corrected images - in particular no encoding lets the number stored under an invalid pixel through.
+    """
+    u = 8
+    ref = rasters.Grid(u * 4000, u * 9000, 40 * u, 40 * u, 9, 9)
+    src = rasters.Grid(ref.x0 + 40 * u, ref.ytop - 40 * u, u, u, 240, 240)
+    rng = run.rng('partial-mask-enc')
+    s = np.array([[[rng.randint(20, 200) for _ in range(src.w)] for _ in range(src.h)]], float)
+    r = np.array([[[rng.randint(30, 150) for _ in range(ref.w)] for _ in range(ref.h)]], float)
+    sv = np.ones((src.h, src.w), bool)
+    for (rr, cc) in ((123, 107), (61, 190), (170, 55)):
+        sv[rr, cc] = False
+    rv = np.ones((ref.h, ref.w), bool)
+    base = None
+    for k, (enc, hid) in enumerate((('nan', None), (-9999.0, None), ('mask', 3.4e38), ('sidecar', 'random'), ('masktag', -9999.0))):
+        sp, rp = tmp / 'c08_pm_s.tif', tmp / 'c08_pm_r.tif'
+        write_encoded(sp, src, s, sv, 'float32', enc, hid, rng)
+        write_encoded(rp, ref, r, rv, 'float32', 'nan', None, rng)
+        case = dict(i=890_000 + k, op='partial masking, coarse reference', src_encoding=[str(enc), str(hid)], ratio=40)
+        try:
+            res = fusion.run_fuse(sp, rp, tmp / 'c08_pm_o.tif', model='gain', kernel_shape=(1, 1), param=False, threads=1,
+                                  model_config=dict(mask_partial=True))
+        except Exception as ex:
+            run.fail(case, f'raised {type(ex).__name__}: {ex}', signature=dict(kind='raises'))
+            continue
+        run.evaluations += 1
+        run.hist['partial masking on a 40:1 reference, by encoding'] += 1
+        cur = (res.corr, res.corr_mask)
+        if base is None:
+            base = cur
+            continue
+        run.nontrivial.add(('pm-enc', k))
+        if not all(fusion.bytes_equal(a, b) for a, b in zip(cur, base)):
+            d = np.argwhere(~((cur[0][0] == base[0][0]) | (np.isnan(cur[0][0]) & np.isnan(base[0][0]))))
+            run.fail(case, f'corrected image with the source encoded as {enc} differs from the NaN-nodata encoding at {len(d)} pixels, e.g. '
+                     f'{d[0].tolist() if len(d) else "mask only"}: {float(cur[0][0][tuple(d[0])]) if len(d) else ""} vs '
+                     f'{float(base[0][0][tuple(d[0])]) if len(d) else ""}', signature=dict(kind='encoding-dependence', what='partial mask'))
 
 
 def orientation_leg(run, tmp):
